@@ -334,6 +334,67 @@ func runPage(c *core.Ctx) {
 							key := fmt.Sprintf("page-append:%s#%d", kn(c.P.FuncName(fn)), n)
 							c.Check(good, key, cc.Pos(), "the page appended at %s passed len(page) ≤ limit: %v (otherwise a page larger than the response limit is served)", c.P.Pos(cc.Pos()), good)
 						})
+						// no page value is appended twice: after a page was appended, the variable holding it is
+						// given a new value before the next append on every path
+						type flushed struct{ v ssa.Value }
+						pageOf := func(in ssa.Instruction) ssa.Value {
+							cc, ok := in.(*ssa.Call)
+							if !ok {
+								return nil
+							}
+							bi, ok := cc.Call.Value.(*ssa.Builtin)
+							if !ok || bi.Name() != "append" || !types.Identical(cc.Type(), res.At(0).Type()) {
+								return nil
+							}
+							elems, ok := variadicElems(cc.Call.Args[1])
+							if !ok || len(elems) != 1 {
+								return nil
+							}
+							return elems[0]
+						}
+						var twice ssa.Instruction
+						an.Paths(an.PathSpec[flushed]{Fn: fn, Init: flushed{},
+							Instr: func(st flushed, in ssa.Instruction) []flushed {
+								if pg := pageOf(in); pg != nil {
+									if st.v != nil && st.v == pg && twice == nil {
+										twice = in
+									}
+									return []flushed{{pg}}
+								}
+								return []flushed{st}
+							},
+							Edge: func(st flushed, from *ssa.BasicBlock, succ int) (flushed, bool) {
+								if st.v == nil {
+									return st, true
+								}
+								to := from.Succs[succ]
+								pi := -1
+								for i, p := range to.Preds {
+									if p == from {
+										pi = i
+									}
+								}
+								for _, in := range to.Instrs {
+									phi, ok := in.(*ssa.Phi)
+									if !ok {
+										break
+									}
+									if pi >= 0 && pi < len(phi.Edges) && phi.Edges[pi] == st.v {
+										return flushed{phi}, true
+									}
+								}
+								if in, ok := st.v.(ssa.Instruction); ok && in.Block() == to {
+									return flushed{}, true
+								}
+								return st, true
+							}})
+						if n > 0 {
+							where := ""
+							if twice != nil {
+								where = c.P.Pos(twice.Pos())
+							}
+							c.Check(twice == nil, "page-once:"+kn(c.P.FuncName(fn)), fn.Pos(), "in %s no page value reaches a second append to the result without having been replaced in between (second append at %s): %v — otherwise the Link chain lists the referrers of that page twice", c.P.FuncName(fn), where, twice == nil)
+						}
 					}
 				}
 			}
